@@ -21,6 +21,7 @@
 #include "expression.h"
 #include "plugin_manager.h"
 #include "debug.h"
+#include "verif_hook.h"
 
 #include <string>
 #include <cassert>
@@ -65,6 +66,7 @@ Complex::~Complex()
 #ifdef DEBUG_COMPLEX
   DBG(DBG_DEBUG, "%s line %d\n", __PRETTY_FUNCTION__, __LINE__);
 #endif
+  BLOC_VERIF_POINT(BLOC_VP_REFCOUNT, _refcount);
   if ((*_refcount -= 1) == 0)
   {
     delete _refcount;
@@ -81,6 +83,7 @@ Complex::Complex(const Complex& c)
 #ifdef DEBUG_COMPLEX
   DBG(DBG_DEBUG, "%s line %d\n", __PRETTY_FUNCTION__, __LINE__);
 #endif
+  BLOC_VERIF_POINT(BLOC_VP_REFCOUNT, _refcount);
   *_refcount += 1;
 }
 
